@@ -108,7 +108,11 @@ class String:
             '(?P<name>[a-zA-Z0-9_/.-]+)'              # tag name
             '('
             '[\000- ]+'                             # space after tag name
-            '(?P<args>([^\\)"]+("[^"]*")?)*)'         # arguments
+            # arguments: runs of unquoted text, each optionally followed by
+            # a quoted string.  Written so that it can match in one way only;
+            # the former ([^)"]+("[^"]*")?)* took exponential time on an
+            # unterminated '%(a bbbb...'.
+            '(?P<args>([^\\)"]+("[^"]*"[^\\)"]+)*("[^"]*")?)?)'
             ')?'
             '\\)(?P<fmt>[0-9]*[.]?[0-9]*[a-z]|[]![])',  # end
             re.I)
